@@ -1,5 +1,5 @@
 (** C13 — a Job disappears only after its tasks are gone; TTL deletion is never early. *)
-From Furiko Require Import Job.Core Job.Sync Job.World Proofs.JobP Proofs.SyncP Proofs.HistoryP Proofs.CacheP.
+From Furiko Require Import Job.Core Job.Sync Job.World Proofs.JobP Proofs.SyncP Proofs.SweepP Proofs.HistoryP Proofs.CacheP.
 
 (** The pass removes the delete-dependents finalizer only from a Job that is being
     deleted, and only when no task named in its status is present in the Pod cache.  (The
@@ -34,6 +34,17 @@ Theorem c13_ttl_effective_value :
     match j_ttl j with Some t => t | None => match cfg_ttl cfg with Some d => d | None => 0 end end.
 Proof. reflexivity. Qed.
 Print Assumptions c13_ttl_effective_value.
+
+(** "... and is eventually deleted after that": a pass that sees the finished Job at or after
+    finish time + effective TTL issues the delete (unless that very call is made to fail, in
+    which case the pass fails and is retried) *)
+Theorem c13_ttl_fires :
+  forall cfg s j now s' ok r f lc lr,
+    handle_ttl cfg s j now = (s', ok) -> j_deletion j = None -> j_cond j = CFinished r (Some f) lc lr ->
+    f + ttl_after_finished cfg j <= now -> take_fault FDeleteJob (faults (ps_w s)) = None ->
+    ok = true /\ exists o, In (ADeleteJob o) (ps_actions s').
+Proof. exact ttl_fires. Qed.
+Print Assumptions c13_ttl_fires.
 
 (** a finished, not deleted Job with a stored TTL arms a deferred re-sync in every pass *)
 Theorem c13_ttl_armed :
